@@ -87,6 +87,7 @@ class Engine:
         lg.addHandler(logging.NullHandler())
         lg.propagate = False
         self.lib_files()
+        self.ref_world = procs.RefWorld()
 
     # -- plans -------------------------------------------------------------------------------------
     def gen_plan(self, rng, config, tier, prop):
@@ -221,7 +222,9 @@ class Engine:
             sut_tree_mod = procs.tree_module()  # this run is one simulated process
             for opi, op in enumerate(plan["ops"]):
                 got = self.request(shared, op, sut_tree_mod)
-                want = self.request(pickle.loads(pk), op, procs.tree_module())
+                with self.ref_world:
+                    # the reference process: its own copy of the pymoca package; only the digest leaves the block
+                    want = self.request(pickle.loads(pk), op, procs.tree_module())
                 log.add(opi, 0, op["op"], "%s %s %s" % (op["class"], got[0], want[0]))
                 counts["requests"] = counts.get("requests", 0) + 1
                 if want[0] == "fail":
@@ -330,11 +333,17 @@ class Engine:
                             viol = ("wrong_exit_status", "compiler:main", shape, "%s: every single -t sympy request returns 0, "
                                     "the joint request %s gives %r" % (libname, order, joint))
                         else:
+                            # what each model gets when requested alone must be in the joint output, unchanged (two
+                            # models must not end up in one file), and nothing else
                             want_files = {}
+                            diff = []
                             for m in order:
+                                for fn, content in singles[m][1].items():
+                                    if jfiles.get(fn) != content:
+                                        diff.append(fn)
                                 want_files.update(singles[m][1])
-                            if want_files != jfiles:
-                                diff = [k for k in set(want_files) | set(jfiles) if want_files.get(k) != jfiles.get(k)]
+                            diff += [k for k in jfiles if k not in want_files]
+                            if diff:
                                 viol = ("wrong_result", "compiler:main", shape, "%s: output files %s of the joint request %s "
                                         "differ from those of the single requests" % (libname, sorted(diff), order))
                     elif joint[0] == "raised" and singles[order[0]][0][0] != "raised":
